@@ -520,6 +520,97 @@ def surface_programs(jpath):
                 for route in routes:
                     progs.append(dict(id=f"{base}/{route}", origin="surface",
                                       type=f"{tname}::{mname}", route=route, pre=prod["pre"], expr=expr, handle=is_handle, kind=kind))
+    # associated functions of trait impls (also impls for foreign types such as Option<KVPair>)
+    # that take a transaction-derived value by argument: From / TryFrom style conversions
+    def render(t):
+        if t is None:
+            return "()"
+        if "resolved_path" in t:
+            rp = t["resolved_path"]
+            name = rp.get("path") or rp.get("name")
+            args = rp.get("args") or {}
+            ab = args.get("angle_bracketed") if isinstance(args, dict) else None
+            if ab and ab.get("args"):
+                parts = []
+                for a in ab["args"]:
+                    if "lifetime" in a:
+                        parts.append("'_")
+                    elif "type" in a:
+                        r = render(a["type"])
+                        if r is None:
+                            return None
+                        parts.append(r)
+                    else:
+                        return None
+                return f"{name}<{', '.join(parts)}>"
+            return name
+        if "borrowed_ref" in t:
+            r = render(t["borrowed_ref"]["type"])
+            return None if r is None else ("&mut " if t["borrowed_ref"].get("is_mutable") else "&") + r
+        if "slice" in t:
+            r = render(t["slice"])
+            return None if r is None else f"[{r}]"
+        if "primitive" in t:
+            return t["primitive"]
+        if "tuple" in t:
+            rs = [render(x) for x in t["tuple"]]
+            return None if any(r is None for r in rs) else "(" + ", ".join(rs) + ("," if len(rs) == 1 else "") + ")"
+        return None
+    def producer_of(t):
+        if t and "resolved_path" in t:
+            n = (t["resolved_path"].get("path") or t["resolved_path"].get("name") or "").split("::")[-1]
+            return n if n in PRODUCERS else None
+        return None
+    for k, v in idx.items():
+        if v.get("crate_id") != 0 or "impl" not in v.get("inner", {}):
+            continue
+        iv = v["inner"]["impl"]
+        if iv.get("blanket_impl") or iv.get("is_synthetic") or not iv.get("trait"):
+            continue
+        tpath = iv["trait"].get("path") or ""
+        if tpath.split("::")[-1] in ("Debug", "PartialEq", "Eq", "StructuralPartialEq", "Hash", "PartialOrd", "Ord", "Display", "Clone", "Drop"):
+            continue
+        targs = iv["trait"].get("args") or {}
+        for iid in iv["items"]:
+            it = idx.get(str(iid))
+            if not it or "function" not in it["inner"]:
+                continue
+            f = it["inner"]["function"]
+            inputs = f["sig"]["inputs"]
+            if not inputs or inputs[0][0] == "self":
+                continue
+            out = f["sig"].get("output")
+            if not type_mentions_local(out, idx):
+                continue
+            prods = [producer_of(aty) for _, aty in inputs]
+            if not any(prods):
+                continue
+            ft = render(iv["for"])
+            tr = render({"resolved_path": {"path": tpath, "args": targs}})
+            if ft is None or tr is None:
+                uncovered.append(f"impl {tpath} for ...::{it['name']}: cannot render the types")
+                continue
+            pname = next(p for p in prods if p)
+            prod = PRODUCERS[pname]
+            args, ok = [], True
+            for n, ((an, aty), pr) in enumerate(zip(inputs, prods)):
+                if pr == pname and prod["recv"] not in args:
+                    args.append(prod["recv"])
+                else:
+                    a = synth_arg(an, aty, f["generics"], n)
+                    if a is None:
+                        ok = False
+                        break
+                    args.append(a)
+            if not ok:
+                uncovered.append(f"impl {tpath} for {ft}::{it['name']}: cannot synthesise arguments")
+                continue
+            expr = f"<{ft} as {tr}>::{it['name']}({', '.join(args)})"
+            base = f"surface/<{ft} as {tpath}>::{it['name']}"
+            is_handle = mentions_handle(out, idx)
+            kind = "opaque" if mentions_opaque(out, idx) else "probe"
+            for route in (HANDLE_ROUTES if is_handle else SLICE_ROUTES):
+                progs.append(dict(id=f"{base}/{route}", origin="surface", type=f"{ft}::{it['name']}", route=route, pre=prod["pre"], expr=expr, handle=is_handle, kind=kind))
     # short-lived key / value / name buffers: for every argument with a ToBytes bound
     for k, v in idx.items():
         if v.get("crate_id") != 0 or v.get("visibility") != "public":
